@@ -15,7 +15,8 @@
    pion/dtls internals, real-time bounds. *)
 From Coq Require Import List Bool String Arith.
 From GoCoap Require Import Liveness.Model Liveness.Close Liveness.Spec Liveness.Proofs Liveness.Stall Liveness.StallProofs
-  Liveness.Table Liveness.TableProofs Liveness.Stop Liveness.StopProofs Gen.WakeSets.
+  Liveness.Table Liveness.TableProofs Liveness.Stop Liveness.StopProofs
+  Liveness.Reg Liveness.RegProofs Liveness.Accept Liveness.AcceptProofs Gen.WakeSets.
 Import ListNotations.
 Local Open Scope list_scope.
 
@@ -351,6 +352,128 @@ Theorem C09_shutdown_guard_on_done_refuted :
 Proof. exact shutdown_guard_on_done_refuted. Qed.
 Print Assumptions C09_shutdown_guard_on_done_refuted.
 
+(* ================= round 4: callbacks registered during the shutdown; Stop while a connection is set up ============ *)
+
+(* "runs every registered on-close callback exactly once" when callbacks are registered WHILE the session shuts down.
+   The on-close list is modelled as the Go slice it is (Liveness/Reg.v: heap of backing arrays, append in place while
+   there is room, the loop of shutdown reads element i of the popped slice at iteration i), popOnClose leaves nil
+   behind.  For ALL callbacks that register callbacks when they run (regs), arbitrary thread programs of AddOnClose
+   and popOnClose/shutdown, every schedule: at every moment nothing has run more often than it was registered; when
+   all threads have returned and one of them shut the session down, every callback that was not registered again
+   during the run has run exactly as often as it was registered before the close. *)
+Theorem C09_callbacks_registered_during_shutdown : forall regs cbs ts sched,
+  Forall (fun p => forallb user_act p = true) ts ->
+  let x := rexec PopNil regs (r_init cbs, ts) sched in
+  (forall f, ran_count (fst x) f <= count_occ Nat.eq_dec cbs f + count_occ Nat.eq_dec (r_added (fst x)) f) /\
+  (rall_done (snd x) -> Exists (fun p => existsb is_pop p = true) ts ->
+   forall f, ~ In f (r_added (fst x)) -> ran_count (fst x) f = count_occ Nat.eq_dec cbs f).
+Proof. exact callbacks_registered_before_close_run_once. Qed.
+Print Assumptions C09_callbacks_registered_during_shutdown.
+
+(* ... and only callbacks named by an AddOnClose of some thread or registered by some callback are registered in a
+   run (so "not registered again" is a static condition) *)
+Theorem C09_registered_callbacks_sources : forall regs ts v cbs sched f,
+  In f (r_added (fst (rexec v regs (r_init cbs, ts) sched))) ->
+  (exists p, In p ts /\ In (RAdd f) p) \/ exists g, In f (regs g).
+Proof. exact added_sources. Qed.
+Print Assumptions C09_registered_callbacks_sources.
+
+(* tie to the source: popOnClose of the three session types leaves `nil` behind (regenerated on every run from the
+   syntax tree) *)
+Theorem C09_pop_shape : udp_pop_shape = 0 /\ tcp_pop_shape = 0 /\ dtls_pop_shape = 0.
+Proof. repeat split; reflexivity. Qed.
+Print Assumptions C09_pop_shape.
+
+(* with `s.onClose = s.onClose[:0]` the statement is false: a callback that registers two callbacks ... *)
+Theorem C09_pop_truncate_nested_refuted :
+  let regs := fun f => if Nat.eqb f 0 then [2; 3] else [] in
+  let x := rexec PopTrunc regs (r_init [0; 1], [[RPop]]) (repeat 0 6) in
+  rall_done (snd x) /\ ~ In 1 (r_added (fst x)) /\
+  ran_count (fst x) 0 = 1 /\ ran_count (fst x) 1 = 0 /\ ran_count (fst x) 3 = 1 /\
+  view (r_heap (fst x)) (r_on (fst x)) = [2; 3].
+Proof. exact pop_trunc_nested_registration_loses_callback. Qed.
+Print Assumptions C09_pop_truncate_nested_refuted.
+
+(* ... or another goroutine registering while a callback runs overwrites what shutdown has not read yet *)
+Theorem C09_pop_truncate_concurrent_refuted :
+  let regs := fun _ : nat => @nil nat in
+  let x := rexec PopTrunc regs (r_init [0; 1; 2; 3], [[RPop]; [RAdd 10; RAdd 11; RAdd 12; RAdd 13]])
+                 [0; 0; 1; 1; 1; 1; 0; 0; 0] in
+  rall_done (snd x) /\
+  ran_count (fst x) 0 = 1 /\ ran_count (fst x) 1 = 0 /\ ran_count (fst x) 2 = 0 /\ ran_count (fst x) 3 = 0 /\
+  ran_count (fst x) 11 = 1 /\ view (r_heap (fst x)) (r_on (fst x)) = [10; 11; 12; 13].
+Proof. exact pop_trunc_concurrent_registration_loses_callbacks. Qed.
+Print Assumptions C09_pop_truncate_concurrent_refuted.
+
+(* "stopping a server ... completes the connection's done signal" for connections that are still being SET UP
+   (Liveness/Accept.v: Stop, the exit path of Serve with connections.Close and wg.Wait, the goroutine of an accepted
+   connection: TLS handshake under the connection context, OnNewConn hook, Store, read loop, deferred Close /
+   shutdown / Delete; a connection context is a child of the server's context).  ARBITRARY thread programs in which
+   the connection goroutines do not wait for their own WaitGroup and some thread is on its way to s.cancel(); every
+   behaviour of the peers (silent for ever included); every schedule: never stuck, completes, and then the server
+   context is cancelled and every connection that had its shutdown ahead has Done completed and its context done. *)
+Theorem C09_stop_ends_connections_in_setup : forall n ts e sched,
+  good_xstart n ts ->
+  let x := xexec CtxServer e (x_init, ts) sched in
+  (~ xall_done (snd x) -> exists tid, xcan_run CtxServer e x tid = true) /\
+  (exists ext, xall_done (snd (xexec CtxServer e x ext))) /\
+  (xall_done (snd x) ->
+   x_srv (fst x) = true /\
+   forall c, (exists t p, nth_error ts t = Some p /\ In (XShutdown c) p) ->
+             mem c (x_done (fst x)) = true /\ ctx_done CtxServer (fst x) c = true).
+Proof. exact stop_ends_connections_in_setup. Qed.
+Print Assumptions C09_stop_ends_connections_in_setup.
+
+(* every step taken shortens the programs by one action and a parked thread changes nothing: every fair schedule
+   completes within [xmeasure] steps *)
+Theorem C09_setup_steps_bounded : forall v e x tid,
+  (xcan_run v e x tid = true -> S (xmeasure (snd (xstep v e x tid))) = xmeasure (snd x)) /\
+  (xcan_run v e x tid = false -> xstep v e x tid = x).
+Proof. intros v e x tid. split; [apply xstep_measure|apply xstep_idle]. Qed.
+Print Assumptions C09_setup_steps_bounded.
+
+(* the library: n accepted connections, each anywhere in its set-up (at c <= 3: before the handshake, in the hook,
+   not yet stored, reading), over TLS or not, one or more Stop calls, Serve *)
+Theorem C09_server_stop_with_connections_in_setup : forall n tls at_ nstop e sched,
+  1 <= nstop -> (forall c, c < n -> at_ c <= 3) ->
+  let x := xexec CtxServer e (x_init, server_sys n tls at_ nstop) sched in
+  (~ xall_done (snd x) -> exists tid, xcan_run CtxServer e x tid = true) /\
+  (exists ext, xall_done (snd (xexec CtxServer e x ext))) /\
+  (xall_done (snd x) ->
+   x_srv (fst x) = true /\
+   forall c, c < n -> mem c (x_done (fst x)) = true /\ ctx_done CtxServer (fst x) c = true).
+Proof. exact server_stop_with_connections_in_setup. Qed.
+Print Assumptions C09_server_stop_with_connections_in_setup.
+
+(* tie to the source: the stream servers derive the context of an accepted connection from their own context *)
+Theorem C09_conn_ctx_shape : tcp_conn_ctx = "s.ctx"%string /\ dtls_conn_ctx = "s.ctx"%string.
+Proof. split; reflexivity. Qed.
+Print Assumptions C09_conn_ctx_shape.
+
+(* with the connection contexts derived from the configured context: a connection whose OnNewConn hook runs while
+   Serve closes its table is read for ever, Serve never returns, Done is never completed ... *)
+Theorem C09_conn_ctx_from_configured_ctx_refuted :
+  let ts := server_sys 1 (fun _ => false) (fun _ => 0) 1 in
+  let x := xexec CtxParent silent (x_init, ts) [2; 2; 1; 1; 1; 0; 0] in
+  ~ xall_done (snd x) /\
+  (forall tid, xcan_run CtxParent silent x tid = false) /\
+  (forall ext, xexec CtxParent silent x ext = x) /\
+  x_srv (fst x) = true /\ mem 0 (x_done (fst x)) = false /\ ctx_done CtxParent (fst x) 0 = false.
+Proof. exact parent_ctx_hook_stuck. Qed.
+Print Assumptions C09_conn_ctx_from_configured_ctx_refuted.
+
+(* ... and so does a TLS handshake with a peer that never sends its ClientHello *)
+Theorem C09_conn_ctx_from_configured_ctx_tls_refuted :
+  let ts := server_sys 1 (fun _ => true) (fun _ => 0) 1 in
+  let x := xexec CtxParent silent (x_init, ts) [2; 2; 1; 1; 1] in
+  ~ xall_done (snd x) /\
+  (forall tid, xcan_run CtxParent silent x tid = false) /\
+  (forall ext, xexec CtxParent silent x ext = x) /\
+  x_srv (fst x) = true /\ mem 0 (x_done (fst x)) = false /\ ctx_done CtxParent (fst x) 0 = false.
+Proof. exact parent_ctx_tls_stuck. Qed.
+Print Assumptions C09_conn_ctx_from_configured_ctx_tls_refuted.
+
+
 (* the hypotheses are satisfiable by non-trivial instances *)
 (* all client-operation functions of the inventory, one after the other, as one operation *)
 Example C09_instance_request :
@@ -402,3 +525,22 @@ Example C09_instance_stop :
   map (fun p => List.length (c_ran (s_peer (fst x) p))) [0; 1; 2; 3] = [2; 2; 2; 2] /\
   forallb (peer_done (fst x)) [0; 1; 2; 3] = true.
 Proof. vm_compute. repeat split; repeat constructor. Qed.
+
+(* three callbacks; the second registers two more when it runs; meanwhile another goroutine registers a sixth; two
+   shutdown callers: a schedule under which everything returns and the three ran once *)
+Example C09_instance_reg :
+  let regs := fun f => if Nat.eqb f 1 then [3; 4] else [] in
+  let ts := [[RPop]; [RAdd 5]; [RPop]] in
+  Forall (fun p => forallb user_act p = true) ts /\
+  let x := rexec PopNil regs (r_init [0; 1; 2], ts) [0; 0; 1; 0; 0; 2; 0; 0; 2; 2; 2; 2] in
+  rall_done (snd x) /\ map (ran_count (fst x)) [0; 1; 2] = [1; 1; 1].
+Proof. split; [repeat constructor|]. vm_compute. split; repeat constructor. Qed.
+
+(* three connections (TLS handshake not begun, inside the hook, reading), two Stop calls, silent peers *)
+Example C09_instance_accept :
+  let at_ := fun c => match c with 0 => 0 | 1 => 1 | _ => 3 end in
+  let ts := server_sys 3 (fun c => Nat.eqb c 0) at_ 2 in
+  good_xstart 3 ts /\
+  let x := xexec CtxServer silent (x_init, ts) (rrx 6 12) in
+  xall_done (snd x) /\ forallb (fun c => mem c (x_done (fst x))) [0; 1; 2] = true.
+Proof. split; [apply server_sys_good; repeat constructor|]. vm_compute. split; repeat constructor. Qed.
